@@ -543,7 +543,7 @@ def resolveIndex (v : Val) (index : Val) (indexAsStr : Option Bytes) : P Val :=
       match alookup k es with
       | some e => pure (elemOut ifc e)
       | none => pure .invalid     -- MapIndex of an absent key: zero Value
-    | .invalid => crash "reflect: call of reflect.Value.Type on zero Value"
+    | .invalid => errPlain "reflect: call of reflect.Value.Type on zero Value"
     | .int _ | .uint _ => unsupported "int key converted to string"
     | .opaque _ => unsupported "map key"
     | _ => errPlain "can't use as key for map"
@@ -796,46 +796,73 @@ def isUnderscore : Expr → Bool
   | .underscore _ => true
   | _ => false
 
+/-- the `j`-th written argument: `_` stands for the piped value -/
+def Args.exprAt (r : Rec) (env : Env) (a : Args) (j : Nat) : M Val :=
+  match a.exprs[j]? with
+  | some e =>
+    if isUnderscore e then
+      match a.piped with
+      | some p => pure p
+      | none => errPlain "pipe slot marker ('_') used as argument, but no value is piped into the call"
+    else r.evalExpr env e
+  | none => pure .invalid
+
 /-- `Arguments.Get(i)` -/
 def Args.get (r : Rec) (env : Env) (a : Args) (i : Nat) : M Val :=
-  let go (j : Nat) : M Val :=
-    match a.exprs[j]? with
-    | some e =>
-      if isUnderscore e then
-        match a.piped with
-        | some p => pure p
-        | none => errPlain "pipe slot marker ('_') used as argument, but no value is piped into the call"
-      else r.evalExpr env e
-    | none => pure .invalid
-  if a.piped.isSome && !a.hasSlot then
-    (if i == 0 then match a.piped with
-      | some p => pure p
-      | none => crash "unreachable"
-     else go (i - 1))
-  else go i
+  match a.piped with
+  | some p =>
+    if !a.hasSlot then (if i == 0 then pure p else a.exprAt r env (i - 1))
+    else a.exprAt r env i
+  | none => a.exprAt r env i
+
+def Args.isSetAt (r : Rec) (env : Env) (a : Args) (j : Nat) : M Bool :=
+  match a.exprs[j]? with
+  | some e =>
+    if isUnderscore e then
+      match a.piped with
+      | some p => pure (Val.notNil p)
+      | none => pure false
+    else r.isSetE env e
+  | none => pure false
 
 /-- `Arguments.IsSet(i)` -/
 def Args.isSet (r : Rec) (env : Env) (a : Args) (i : Nat) : M Bool :=
-  let go (j : Nat) : M Bool :=
-    match a.exprs[j]? with
-    | some e =>
-      if isUnderscore e then
-        match a.piped with
-        | some p => pure (Val.notNil p)
-        | none => pure false
-      else r.isSetE env e
-    | none => pure false
-  if a.piped.isSome && !a.hasSlot then
-    (if i == 0 then match a.piped with
-      | some p => pure (Val.notNil p)
-      | none => crash "unreachable"
-     else go (i - 1))
-  else go i
+  match a.piped with
+  | some p =>
+    if !a.hasSlot then (if i == 0 then pure (Val.notNil p) else a.isSetAt r env (i - 1))
+    else a.isSetAt r env i
+  | none => a.isSetAt r env i
 
-/-- `evaluateArgs` -/
-def evaluateArgs (r : Rec) (env : Env) (sig : Sig) (a : Args) : M (Except String (List Val)) := do
-  -- `.error` = an error *returned* by evaluateArgs (the caller positions it);
-  -- failures while evaluating an argument expression are panics and propagate in `M`.
+def Sig.tyAt (sig : Sig) (slot : Nat) : Option Ty :=
+  match sig.params[slot]? with
+  | some t => some t
+  | none => sig.variadic
+
+/-- convert one argument to its parameter type; `.error` = an error evaluateArgs *returns* -/
+def convArg (ty : Ty) (v : Val) (what : String) : P (Except String Val) := do
+  if !v.isValid then pure (.error (what ++ " is not a valid value"))
+  else match ← convertArg ty v with
+    | some x => pure (.ok x)
+    | none => pure (.error (what ++ " is not convertible"))
+
+def evalArgsLoop (r : Rec) (env : Env) (sig : Sig) (a : Args) : List Expr → Nat → List Val → M (Except String (List Val))
+  | [], _, acc => pure (.ok acc.reverse)
+  | e :: rest, slot, acc => do
+    match sig.tyAt slot with
+    | none => crash "unreachable: too many arguments"
+    | some t =>
+      let v ← (if isUnderscore e then
+          match a.piped with
+          | some p => pure p
+          | none => crash "nil pointer dereference (no piped value)"
+        else r.evalExpr env e)
+      match ← liftP (convArg t v "argument") with
+      | .ok x => evalArgsLoop r env sig a rest (slot + 1) (x :: acc)
+      | .error m => pure (.error m)
+
+/-- `evaluateArgs`: `.error` = an error it *returns* (the caller positions it); failures while
+    evaluating an argument expression are panics and propagate in `M`. -/
+def evaluateArgs (r : Rec) (env : Env) (sig : Sig) (a : Args) : M (Except String (List Val)) :=
   if a.hasSlot && a.piped.isNone then
     pure (.error "pipe slot marker ('_') in call, but no value is piped into it")
   else
@@ -844,44 +871,16 @@ def evaluateArgs (r : Rec) (env : Env) (sig : Sig) (a : Args) : M (Except String
     if (sig.variadic.isSome && numArgs < required) || (sig.variadic.isNone && numArgs != required) then
       pure (.error "wrong number of arguments")
     else
-    -- the effective argument list: piped value first unless a slot takes it
-    let conv (ty : Ty) (v : Val) (what : String) : M (Except String Val) := do
-      if !v.isValid then pure (.error (what ++ " is not a valid value"))
-      else match ← liftP (convertArg ty v) with
-        | some x => pure (.ok x)
-        | none => pure (.error (what ++ " is not convertible"))
-    let tyAt (slot : Nat) : M Ty :=
-      match sig.params[slot]? with
-      | some t => pure t
-      | none => match sig.variadic with
-        | some t => pure t
-        | none => crash "unreachable: too many arguments"
-    let pipedFirst := a.piped.isSome && !a.hasSlot
-    let head ← (if pipedFirst then
-        match a.piped with
-        | some p => do
-          let t ← tyAt 0
-          match ← conv t p "piped first argument" with
-          | .ok x => pure (Except.ok [x])
-          | .error m => pure (.error m)
-        | none => crash "unreachable"
-      else pure (.ok []))
-    let rec loop (es : List Expr) (slot : Nat) (acc : List Val) : M (Except String (List Val)) :=
-      match es with
-      | [] => pure (.ok acc.reverse)
-      | e :: rest => do
-        let t ← tyAt slot
-        let v ← (if isUnderscore e then
-            match a.piped with
-            | some p => pure p
-            | none => crash "nil pointer dereference (no piped value)"
-          else r.evalExpr env e)
-        match ← conv t v "argument" with
-        | .ok x => loop rest (slot + 1) (x :: acc)
-        | .error m => pure (.error m)
-    match head with
-    | .error m => pure (.error m)
-    | .ok hd => loop a.exprs hd.length hd.reverse
+      -- the effective argument list: piped value first unless a slot takes it
+      match a.piped, a.hasSlot with
+      | some p, false =>
+        (match sig.tyAt 0 with
+         | none => crash "unreachable: too many arguments"
+         | some t => do
+           match ← liftP (convArg t p "piped first argument") with
+           | .ok x => evalArgsLoop r env sig a a.exprs 1 [x]
+           | .error m => pure (.error m))
+      | _, _ => evalArgsLoop r env sig a a.exprs 0 []
 
 def canonicalOf (env : Env) (path : Bytes) : Option (Bytes × Option Tmpl) :=
   env.exts.findSome? fun ext =>
@@ -914,24 +913,120 @@ def rootOf (env : Env) : Nat → Tmpl → Option Tmpl
 
 def ctxSwap (v : Val) : M Val := fun rt => .ok rt.ctx { rt with ctx := v }
 
+def issetLoop (r : Rec) (env : Env) (a : Args) : Nat → Nat → M Val
+  | 0, _ => pure (.bool true)
+  | f + 1, i =>
+    if i ≥ a.num then pure (.bool true)
+    else do
+      let s ← a.isSet r env i
+      if !s then pure (.bool false) else issetLoop r env a f (i + 1)
+
+def sliceLoop (r : Rec) (env : Env) (a : Args) : Nat → Nat → List Val → M Val
+  | 0, _, acc => pure (.slice acc.reverse true false)
+  | f + 1, i, acc =>
+    if i ≥ a.num then pure (.slice acc.reverse true false)
+    else do
+      let v ← a.get r env i
+      -- a.Get(i).Interface(): panics on an invalid Value
+      if !v.isValid then errPlain "reflect: call of reflect.Value.Interface on zero Value"
+      else sliceLoop r env a f (i + 1) (Val.indirectInterface v :: acc)
+
+def mapLoop (r : Rec) (env : Env) (a : Args) : Nat → Nat → List (Bytes × Val) → M Val
+  | 0, _, acc => pure (.smap acc true false)
+  | f + 1, i, acc =>
+    if i ≥ a.num then pure (.smap acc true false)
+    else do
+      let k ← a.get r env i
+      if !k.isValid then errPlain "map(): key argument is not a valid value" else
+      match k with
+      | .str _ => do
+        -- m.SetMapIndex(a.Get(i), a.Get(i+1)): evaluates the key expression again
+        let k2 ← a.get r env i
+        let v ← a.get r env (i + 1)
+        match k2 with
+        | .str ks =>
+          if !v.isValid then
+            -- SetMapIndex with a zero Value deletes the key
+            mapLoop r env a f (i + 2) (acc.filter (fun p => p.1 ≠ ks))
+          else mapLoop r env a f (i + 2) (aset ks (Val.indirectInterface v) acc)
+        | _ => unsupported "map key changed between evaluations"
+      | .int _ | .uint _ | .bytes _ => unsupported "map(): converted key"
+      | .opaque _ | .hidden _ => unsupported "map key"
+      | _ => errPlain "map(): key is not convertible to string"
+
+def recLoop (r : Rec) (env : Env) (a : Args) : Nat → Nat → List Val → M Val
+  | 0, _, acc => pure (.slice acc.reverse true false)
+  | f + 1, i, acc =>
+    if i ≥ a.num then pure (.slice acc.reverse true false)
+    else do
+      let v ← a.get r env i
+      recLoop r env a f (i + 1) ((if v.isValid then Val.indirectInterface v else .invalid) :: acc)
+
+/-- `a.ParseInto(&int64)` for one argument -/
+def parseIntoInt (v : Val) : P Int :=
+  match Val.indirectEface v with
+  | .int i => pure i
+  | .float f => liftOpt "int64(float)" (floatToInt f)
+  | .invalid => errPlain "argument is not a valid value"
+  | .opaque _ | .hidden _ => unsupported "ParseInto"
+  | _ => errPlain "could not parse into int64"
+
+/-- `exec` / `includeIfExists` -/
+def execBuiltin (r : Rec) (env : Env) (isExec : Bool) (a : Args) : M Val :=
+  if a.num < 1 || a.num > 2 then errPlain "unexpected number of arguments" else do
+  let nameV ← a.get r env 0
+  match nameV with
+  | .str name =>
+    let p := Path.resolveSibling name [47]
+    match canonicalOf env p with
+    | none => if isExec then errPlain "exec: template could not be found" else pure (.hidden false)
+    | some (_, none) => if isExec then errPlain "exec: template does not parse" else pure (.hidden false)
+    | some (_, some t) =>
+      match rootOf env 64 t with
+      | none => unsupported "extends chain too deep"
+      | some root =>
+        let inner : M Val := do
+          setBlocks t.blocks
+          if a.num > 1 then withCtxD (a.get r env 1) (r.execList env root.root)
+          else r.execList env root.root
+        do
+          let v ← withNewScopeD (if isExec then withWriterD .discard inner else inner)
+          pure (if isExec then v else .hidden true)
+  | _ => unsupported "template name of non-string kind"
+
 /-- a jet.Func built-in -/
-def applyJetFunc (r : Rec) (env : Env) (id0 : String) (a : Args) : M Val := do
+def applyJetFunc (r : Rec) (env : Env) (id0 : String) (a : Args) : M Val :=
   let id := if id0 == "array" then "slice" else id0
-  match id with
-  | "isset" =>
-    if a.num < 1 then errPlain "unexpected number of arguments in a call to isset" else
-    let rec go1 (i : Nat) (fuel : Nat) : M Val :=
-      match fuel with
-      | 0 => pure (.bool true)
-      | f + 1 => do
-        if i ≥ a.num then pure (.bool true)
-        else
-          let s ← a.isSet r env i
-          if !s then pure (.bool false) else go1 (i + 1) f
-    go1 0 a.num
-  | "len" =>
-    if a.num != 1 then errPlain "unexpected number of arguments in a call to len" else do
-    let v ← a.get r env 0
+  if id == "isset" then
+    (if a.num < 1 then errPlain "unexpected number of arguments in a call to isset"
+     else issetLoop r env a a.num 0)
+  else if id == "len" then
+    (if a.num != 1 then errPlain "unexpected number of arguments in a call to len" else do
+      let v ← a.get r env 0
+      liftP (lenOf v))
+  else if id == "ints" then
+    -- a.ParseInto(&from, &to)
+    (if a.num > 2 then errPlain "have more arguments than pointers to parse into"
+     else if a.num < 2 then unsupported "ints with fewer than two arguments"
+     else do
+      let f ← a.get r env 0
+      let f ← liftP (parseIntoInt f)
+      let t ← a.get r env 1
+      let t ← liftP (parseIntoInt t)
+      if t ≤ f then errPlain "invalid range for ints ranger" else pure (.intsRanger f t))
+  else if id == "slice" then sliceLoop r env a a.num 0 []
+  else if id == "map" then
+    (if a.num % 2 > 0 then errPlain "map(): incomplete key-value pair" else mapLoop r env a a.num 0 [])
+  else if id == "exec" then execBuiltin r env true a
+  else if id == "includeIfExists" then execBuiltin r env false a
+  else if id == "rec" then do
+    -- harness recorder: logs the number of arguments, then evaluates each in order
+    logE (.call "rec" a.num)
+    recLoop r env a a.num 0 []
+  else unsupported ("jet func " ++ id)
+where
+  /-- the `len` built-in on an evaluated argument -/
+  lenOf (v : Val) : P Val :=
     if !v.isValid then errPlain "len(): argument is not a valid value" else
     let v := match v with
       | .ptr _ (some x) => x
@@ -944,94 +1039,8 @@ def applyJetFunc (r : Rec) (env : Env) (id0 : String) (a : Args) : M Val := do
     | .smap es _ _ => pure (.int es.length)
     | .struct _ fs => pure (.int fs.length)
     | .opaque _ | .hidden _ | .errv _ _ | .intsRanger _ _ => unsupported "len"
-    | .invalid | .ptr _ none => crash "reflect: call of reflect.Value.Type on zero Value"
+    | .invalid | .ptr _ none => errPlain "reflect: call of reflect.Value.Type on zero Value"
     | _ => errPlain "len(): invalid value type"
-  | "ints" => do
-    -- a.ParseInto(&from, &to)
-    if a.num > 2 then errPlain "have more arguments than pointers to parse into" else
-    if a.num < 2 then unsupported "ints with fewer than two arguments" else
-    let conv (v : Val) : M Int :=
-      match Val.indirectEface v with
-      | .int i => pure i
-      | .float f => liftOpt "int64(float)" (floatToInt f)
-      | .invalid => errPlain "argument is not a valid value"
-      | .opaque _ | .hidden _ => unsupported "ParseInto"
-      | _ => errPlain "could not parse into int64"
-    let f ← a.get r env 0
-    let f ← conv f
-    let t ← a.get r env 1
-    let t ← conv t
-    if t ≤ f then errPlain "invalid range for ints ranger" else pure (.intsRanger f t)
-  | "slice" =>
-    let rec go2 (i : Nat) (fuel : Nat) (acc : List Val) : M Val :=
-      match fuel with
-      | 0 => pure (.slice acc.reverse true false)
-      | f + 1 => do
-        if i ≥ a.num then pure (.slice acc.reverse true false)
-        else
-          let v ← a.get r env i
-          -- a.Get(i).Interface(): panics on an invalid Value
-          if !v.isValid then crash "reflect: call of reflect.Value.Interface on zero Value"
-          else go2 (i + 1) f (Val.indirectInterface v :: acc)
-    go2 0 a.num []
-  | "map" =>
-    if a.num % 2 > 0 then errPlain "map(): incomplete key-value pair" else
-    let rec go3 (i : Nat) (fuel : Nat) (acc : List (Bytes × Val)) : M Val :=
-      match fuel with
-      | 0 => pure (.smap acc true false)
-      | f + 1 => do
-        if i ≥ a.num then pure (.smap acc true false)
-        else
-          let k ← a.get r env i
-          if !k.isValid then errPlain "map(): key argument is not a valid value" else
-          match k with
-          | .str _ => do
-            -- m.SetMapIndex(a.Get(i), a.Get(i+1)): evaluates the key expression again
-            let k2 ← a.get r env i
-            let v ← a.get r env (i + 1)
-            match k2 with
-            | .str ks =>
-              if !v.isValid then
-                -- SetMapIndex with a zero Value deletes the key
-                go3 (i + 2) f (acc.filter (fun p => p.1 ≠ ks))
-              else go3 (i + 2) f (aset ks (Val.indirectInterface v) acc)
-            | _ => unsupported "map key changed between evaluations"
-          | .int _ | .uint _ | .bytes _ => unsupported "map(): converted key"
-          | .opaque _ | .hidden _ => unsupported "map key"
-          | _ => errPlain "map(): key is not convertible to string"
-    go3 0 a.num []
-  | "exec" | "includeIfExists" =>
-    let isExec := id == "exec"
-    if a.num < 1 || a.num > 2 then errPlain "unexpected number of arguments" else do
-    let nameV ← a.get r env 0
-    let name ← (match nameV with
-      | .str s => pure s
-      | _ => unsupported "template name of non-string kind")
-    let p := Path.resolveSibling name [47]
-    match canonicalOf env p with
-    | none => if isExec then errPlain "exec: template could not be found" else pure (.hidden false)
-    | some (_, none) => if isExec then errPlain "exec: template does not parse" else pure (.hidden false)
-    | some (_, some t) =>
-      let root ← liftOpt "extends chain too deep" (rootOf env 64 t)
-      let inner : M Val := do
-        setBlocks t.blocks
-        if a.num > 1 then withCtxD (a.get r env 1) (r.execList env root.root)
-        else r.execList env root.root
-      let v ← withNewScopeD (if isExec then withWriterD .discard inner else inner)
-      pure (if isExec then v else .hidden true)
-  | "rec" => do
-    -- harness recorder: logs the number of arguments, then evaluates each in order
-    logE (.call "rec" a.num)
-    let rec go4 (i : Nat) (fuel : Nat) (acc : List Val) : M Val :=
-      match fuel with
-      | 0 => pure (.slice acc.reverse true false)
-      | f + 1 => do
-        if i ≥ a.num then pure (.slice acc.reverse true false)
-        else
-          let v ← a.get r env i
-          go4 (i + 1) f ((if v.isValid then Val.indirectInterface v else .invalid) :: acc)
-    go4 0 a.num []
-  | _ => unsupported ("jet func " ++ id)
 
 /-- `evalPipeCallExpression`: `.error` is the error it *returns* (positioned by the caller);
     a failure inside the called function is a panic and propagates unpositioned. -/
@@ -1162,7 +1171,7 @@ def evalExprF (r : Rec) (env : Env) (e : Expr) : M Val :=
     | .opaque _ => unsupported "call of opaque"
     | _ =>
     if !kindIsFunc fv then
-      (if fv.isValid then errAt loc "node is not func kind" else crash "reflect: call of reflect.Value.Type on zero Value")
+      (if fv.isValid then errAt loc "node is not func kind" else errPlain "reflect: call of reflect.Value.Type on zero Value")
     else callAt r env loc fv { exprs := args, hasSlot := hasSlot, piped := none }
   | .index loc base idx => do
     let bv ← r.evalExpr env base
@@ -1199,15 +1208,15 @@ def evalExprF (r : Rec) (env : Env) (e : Expr) : M Val :=
       | .bytes s => pure (.bytes ((s.drop lo.toNat).take (hi - lo).toNat))
       | _ => errPlain "reflect: call of reflect.Value.Slice on map Value"  -- *reflect.ValueError
 
-/-- `Runtime.isSet` with Go's catch-all `recover()` -/
-def isSetF (r : Rec) (env : Env) (e : Expr) : M Bool :=
-  -- the recover handler resets scope, context and content to their values at entry
-  let guard (m : M Bool) : M Bool := fun rt =>
-    match m rt with
-    | .err _ rt' => .ok false { rt' with scope := rt.scope, ctx := rt.ctx, content := rt.content }
-    | .crash _ rt' => .ok false { rt' with scope := rt.scope, ctx := rt.ctx, content := rt.content }
-    | x => x
-  guard (match e with
+def isSetFieldPath : Val → List Bytes → P Bool
+  | _, [] => pure true
+  | v, f :: rest => do
+    let x ← resolveIndex v .invalid (some f)
+    if !Val.notNil x then pure false else isSetFieldPath x rest
+
+/-- the body of `Runtime.isSet`, before its `recover()` -/
+def isSetBody (r : Rec) (env : Env) (e : Expr) : M Bool :=
+  match e with
   | .index _ base idx => do
     let b1 ← r.isSetE env base
     if !b1 then pure false else
@@ -1223,17 +1232,23 @@ def isSetF (r : Rec) (env : Env) (e : Expr) : M Bool :=
     | none => pure false
   | .field _ names => do
     let rt ← getRT
-    let rec go (v : Val) : List Bytes → M Bool
-      | [] => pure true
-      | f :: rest => do
-        let x ← liftP (resolveIndex v .invalid (some f))
-        if !Val.notNil x then pure false else go x rest
-    go rt.ctx names
+    liftP (isSetFieldPath rt.ctx names)
   | .chain _ base fields => do
     let bv ← r.evalExpr env base
     let x ← liftP (evalChainFields bv fields)
     pure (Val.notNil x)
-  | _ => pure true)
+  | _ => pure true
+
+/-- Go's catch-all `recover()` in isSet: any panic means "not set"; the handler resets scope,
+    context and content to their values at entry -/
+def recoverFalse (m : M Bool) : M Bool := fun rt =>
+  match m rt with
+  | .err _ rt' => .ok false { rt' with scope := rt.scope, ctx := rt.ctx, content := rt.content }
+  | .crash _ rt' => .ok false { rt' with scope := rt.scope, ctx := rt.ctx, content := rt.content }
+  | x => x
+
+/-- `Runtime.isSet` -/
+def isSetF (r : Rec) (env : Env) (e : Expr) : M Bool := recoverFalse (isSetBody r env e)
 
 /-! #### statements -/
 
@@ -1250,44 +1265,46 @@ def leftName : Expr → Option Bytes
   | .ident _ n => some n
   | _ => none
 
+def assignOne (r : Rec) (env : Env) (isLet : Bool) (l : Expr) (v : Val) : M Unit :=
+  if isUnderscore l then pure ()
+  else if isLet then
+    match leftName l with
+    | some n => letVar n v
+    | none => crash "interface conversion: not *IdentifierNode"
+  else executeSet r env l v
+
+def assignLoop (r : Rec) (env : Env) (isLet : Bool) : List Expr → List Expr → M Unit
+  | [], _ => pure ()
+  | l :: ls, rgt :: rs => do
+    let v ← r.evalExpr env rgt
+    assignOne r env isLet l v
+    assignLoop r env isLet ls rs
+  | _ :: _, [] => crash "index out of range [i] in assignment"
+
 /-- `executeSetList` / `executeLetList` -/
 def executeAssign (r : Rec) (env : Env) (s : SetN) : M Unit :=
-  let assign (l : Expr) (v : Val) : M Unit :=
-    if isUnderscore l then pure ()
-    else if s.isLet then
-      match leftName l with
-      | some n => letVar n v
-      | none => crash "interface conversion: not *IdentifierNode"
-    else executeSet r env l v
   if s.lookup then
     match s.left, s.right with
     | [l0, l1], rgt :: _ => do
       let v ← r.evalExpr env rgt
-      assign l0 v
-      assign l1 (.bool v.isValid)
+      assignOne r env s.isLet l0 v
+      assignOne r env s.isLet l1 (.bool v.isValid)
     | _, _ => crash "index out of range in lookup assignment"
-  else
-    let rec go : List Expr → List Expr → M Unit
-      | [], _ => pure ()
-      | l :: ls, rgt :: rs => do
-        let v ← r.evalExpr env rgt
-        assign l v
-        go ls rs
-      | _ :: _, [] => crash "index out of range [i] in assignment"
-    go s.left s.right
+  else assignLoop r env s.isLet s.left s.right
+
+def safeWriterLoop (r : Rec) (env : Env) (sw : String) : List Expr → M Unit
+  | [] => pure ()
+  | e :: rest => do
+    let v ← r.evalExpr env e
+    printSafe sw v
+    safeWriterLoop r env sw rest
 
 /-- `evalSafeWriter(term, node, v...)` -/
 def evalSafeWriter (r : Rec) (env : Env) (sw : String) (piped : Option Val) (args : List Expr) : M Unit := do
   match piped with
   | some v => printSafe sw v
   | none => pure ()
-  let rec go : List Expr → M Unit
-    | [] => pure ()
-    | e :: rest => do
-      let v ← r.evalExpr env e
-      printSafe sw v
-      go rest
-  go args
+  safeWriterLoop r env sw args
 
 /-- `evalCommandExpression` : (value, safeWriter) -/
 def evalCommand (r : Rec) (env : Env) (c : Cmd) : M (Val × Bool) := do
@@ -1322,20 +1339,21 @@ def evalCommandPipe (r : Rec) (env : Env) (c : Cmd) (value : Val) : M (Val × Bo
     let v ← callAt r env c.base.loc term { exprs := c.args, hasSlot := c.hasSlot, piped := some value }
     pure (v, false)
 
+def pipelineLoop (r : Rec) (env : Env) : Val × Bool → List Cmd → M (Val × Bool)
+  | acc, [] => pure acc
+  | acc, c :: cs =>
+    if acc.2 then errAt c.loc "unexpected command, writer command should be the last command"
+    else do
+      let nxt ← evalCommandPipe r env c acc.1
+      pipelineLoop r env nxt cs
+
 /-- `evalPipelineExpression` -/
 def evalPipeline (r : Rec) (env : Env) (p : Pipe) : M (Val × Bool) :=
   match p.cmds with
   | [] => crash "index out of range [0] with length 0"
   | c0 :: rest => do
     let first ← evalCommand r env c0
-    let rec go (acc : Val × Bool) : List Cmd → M (Val × Bool)
-      | [] => pure acc
-      | c :: cs => do
-        if acc.2 then errAt c.loc "unexpected command, writer command should be the last command"
-        else
-          let nxt ← evalCommandPipe r env c acc.1
-          go nxt cs
-    go first rest
+    pipelineLoop r env first rest
 
 inductive RangerSt where
   | sliceR (rest : List Val) (i : Nat) (iface : Bool)
@@ -1489,6 +1507,75 @@ def executeInclude (r : Rec) (env : Env) (loc : Loc) (nameE : Expr) (ctxE : Opti
     | some e => withCtxD (r.evalExpr env e) (r.execList env root.root)
     | none => r.execList env root.root)
 
+/-- binds one range variable (`:=` declares in the loop scope, `=` assigns) -/
+def rangeBind (r : Rec) (env : Env) (set : Option SetN) (slot : Option Nat) (v : Val) : M Unit :=
+  match slot, set with
+  | some k, some st =>
+    match st.left[k]? with
+    | some l =>
+      if st.isLet then
+        -- st.variables[node.Set.Left[k].String()] = v
+        (match l with
+         | .ident _ n => letVar n v
+         | .underscore _ => letVar [95] v
+         | _ => unsupported "range variable of non-identifier kind")
+      else executeSet r env l v
+    | none => crash "index out of range"
+  | _, _ => pure ()
+
+/-- the `for !end && !ret.IsValid()` loop of a range, with its `else` branch -/
+def rangeLoop (r : Rec) (env : Env) (set : Option SetN) (keySlot valSlot : Option Nat)
+    (body : List Stmt) (els : Option (List Stmt)) : Nat → RangerSt → Bool → M Val
+  | 0, _, _ => unsupported "range too long"
+  | f + 1, st, first =>
+    match rangerNext st with
+    | ((idx, val, fin), st') =>
+      if fin then
+        (if first then
+          match els with
+          | some l => r.execList env l
+          | none => pure .invalid
+         else pure .invalid)
+      else do
+        rangeBind r env set keySlot idx
+        rangeBind r env set valSlot val
+        (if valSlot.isNone then modifyRT fun rt => { rt with ctx := Val.indirectEface val } else pure ())
+        let ret ← r.execList env body
+        if ret.isValid then pure ret else rangeLoop r env set keySlot valSlot body els f st' false
+
+/-- everything of a range after its loop scope is set up; the context is put back afterwards
+    (not deferred) -/
+def rangeCore (r : Rec) (env : Env) (loc : Loc) (set : Option SetN) (expression : Val)
+    (body : List Stmt) (els : Option (List Stmt)) : M Val := do
+  let nLeft := match set with
+    | some st => st.left.length
+    | none => 0
+  let rg ← liftP (locateP loc (getRanger expression))
+  -- all modelled rangers provide an index
+  let keySlot : Option Nat := if set.isSome then some 0 else none
+  let valSlot : Option Nat := if set.isSome && nLeft > 1 then some 1 else none
+  let rt ← getRT
+  -- Go's loop shape: Range() is called once more after a body that returned; unobservable here
+  withCtxND rt.ctx (rangeLoop r env set keySlot valSlot body els 100000 rg true)
+
+/-- the `NodeRange` case of executeList -/
+def execRange (r : Rec) (env : Env) (loc : Loc) (set : Option SetN) (e : Option Expr)
+    (body : List Stmt) (els : Option (List Stmt)) : M Val :=
+  match set with
+  | some st =>
+    match st.right with
+    | rgt :: _ => do
+      let ex ← r.evalExpr env rgt
+      if st.isLet then withNewScopeND (rangeCore r env loc set ex body els)
+      else rangeCore r env loc set ex body els
+    | [] => crash "index out of range [0] with length 0"
+  | none =>
+    match e with
+    | some ex => do
+      let v ← r.evalExpr env ex
+      rangeCore r env loc set v body els
+    | none => crash "nil expression in range"
+
 /-- one statement of `executeList`; returns the value of a `return` it executed (invalid if none)
     and whether the list opened its let-scope -/
 def execStmt (r : Rec) (env : Env) (inNewScope : Bool) (s : Stmt) : M (Val × Val × Bool) :=
@@ -1530,60 +1617,7 @@ def execStmt (r : Rec) (env : Env) (inNewScope : Bool) (s : Stmt) : M (Val × Va
       | none => branches)
     pure (ret, .invalid, inNewScope)
   | .rangeS loc set e body els => do
-    let rt0 ← getRT
-    let context := rt0.ctx
-    let (expression, isLet, nLeft) ← (match set with
-      | some st => do
-        let ex ← (match st.right with
-          | rgt :: _ => r.evalExpr env rgt
-          | [] => crash "index out of range [0] with length 0")
-        (if st.isLet then newScope else pure ())
-        pure (ex, st.isLet, st.left.length)
-      | none =>
-        match e with
-        | some ex => do let v ← r.evalExpr env ex; pure (v, false, 0)
-        | none => crash "nil expression in range")
-    let isSet := set.isSome
-    let rg ← liftP (locateP loc (getRanger expression))
-    let providesIndex := true   -- all modelled rangers provide an index
-    let keySlot : Option Nat := if isSet then some 0 else none
-    let valSlot : Option Nat := if isSet && nLeft > 1 then some 1 else none
-    let _ := providesIndex
-    let bind (slot : Option Nat) (v : Val) : M Unit :=
-      match slot, set with
-      | some k, some st =>
-        match st.left[k]? with
-        | some l =>
-          if isLet then
-            -- st.variables[node.Set.Left[k].String()] = v
-            (match l with
-             | .ident _ n => letVar n v
-             | .underscore _ => letVar [95] v
-             | _ => unsupported "range variable of non-identifier kind")
-          else executeSet r env l v
-        | none => crash "index out of range"
-      | _, _ => pure ()
-    let rec loop (fuel : Nat) (st : RangerSt) (first : Bool) : M Val :=
-      match fuel with
-      | 0 => unsupported "range too long"
-      | f + 1 =>
-        let ((idx, val, fin), st') := rangerNext st
-        if fin then
-          (if first then
-            match els with
-            | some l => r.execList env l
-            | none => pure .invalid
-           else pure .invalid)
-        else do
-          bind keySlot idx
-          bind valSlot val
-          (if valSlot.isNone then modifyRT fun rt => { rt with ctx := Val.indirectEface val } else pure ())
-          let ret ← r.execList env body
-          if ret.isValid then pure ret else loop f st' false
-    -- Go's loop shape: Range() is called once more after a body that returned; unobservable here
-    let ret ← loop 100000 rg true
-    modifyRT fun rt => { rt with ctx := context }
-    if isLet then releaseScope
+    let ret ← execRange r env loc set e body els
     pure (ret, .invalid, inNewScope)
   | .tryS _ body hasCatch cv cb => do
     let ret ← executeTry r env body hasCatch cv cb
@@ -1618,43 +1652,42 @@ def execStmt (r : Rec) (env : Env) (inNewScope : Bool) (s : Stmt) : M (Val × Va
     let v ← r.evalExpr env e
     pure (.invalid, v, inNewScope)
 
-/-- `executeList`: the let-scope opened by the first `:=` of a list is released by a `defer` -/
-def execListF (r : Rec) (env : Env) (l : List Stmt) : M Val :=
-  let rec go (ss : List Stmt) (returnValue : Val) (inNewScope : Bool) (isRet : Bool) : M (Val × Bool) :=
-    match ss with
-    | [] => pure (returnValue, inNewScope)
-    | s :: rest => fun rt =>
-      match execStmt r env inNewScope s rt with
-      | .ok (ret, rv, ins) rt' =>
-        let isReturnStmt := match s with
-          | .ret _ _ => true
-          | _ => false
-        let returnValue' := if isReturnStmt then rv else if ret.isValid then ret else returnValue
-        go rest returnValue' ins isRet rt'
-      | .err e rt' =>
-        -- the panic unwinds through this list: its deferred releaseScope runs if it was registered.
-        -- (whether it was registered by the failing statement itself is decided below)
-        let opened := inNewScope || stmtOpensLet s rt rt'
-        .err e (if opened then popScope rt' else rt')
-      | .crash m rt' =>
-        let opened := inNewScope || stmtOpensLet s rt rt'
-        .crash m (if opened then popScope rt' else rt')
-      | .fuel => .fuel
-      | .unsupported w => .unsupported w
-  fun rt =>
-    match go l .invalid false false rt with
-    | .ok (v, ins) rt' => .ok v (if ins then popScope rt' else rt')
-    | .err e rt' => .err e rt'
-    | .crash m rt' => .crash m rt'
+/-- did this (failing) action statement register the list's deferred releaseScope before it
+    failed?  It does so right after `st.newScope()`, before evaluating the right-hand sides. -/
+def stmtOpensLet (s : Stmt) : Bool :=
+  match s with
+  | .action _ (some st) _ => st.isLet
+  | _ => false
+
+def isReturnStmt : Stmt → Bool
+  | .ret _ _ => true
+  | _ => false
+
+/-- the statement loop of `executeList`; `inNewScope` = the list has opened its let-scope (and
+    registered the deferred releaseScope) -/
+def execListGo (r : Rec) (env : Env) : List Stmt → Val → Bool → M (Val × Bool)
+  | [], returnValue, inNewScope => pure (returnValue, inNewScope)
+  | s :: rest, returnValue, inNewScope => fun rt =>
+    match execStmt r env inNewScope s rt with
+    | .ok (ret, rv, ins) rt' =>
+      let returnValue' := if isReturnStmt s then rv else if ret.isValid then ret else returnValue
+      execListGo r env rest returnValue' ins rt'
+    | .err e rt' =>
+      -- the panic unwinds through this list: its deferred releaseScope runs if it was registered
+      .err e (if inNewScope || stmtOpensLet s then popScope rt' else rt')
+    | .crash m rt' =>
+      .crash m (if inNewScope || stmtOpensLet s then popScope rt' else rt')
     | .fuel => .fuel
     | .unsupported w => .unsupported w
-where
-  /-- did this (failing) action statement register the list's deferred releaseScope before it
-      failed?  It does so right after `st.newScope()`, before evaluating the right-hand sides. -/
-  stmtOpensLet (s : Stmt) (_before _after : RT) : Bool :=
-    match s with
-    | .action _ (some st) _ => st.isLet
-    | _ => false
+
+/-- `executeList`: the let-scope opened by the first `:=` of a list is released by a `defer` -/
+def execListF (r : Rec) (env : Env) (l : List Stmt) : M Val := fun rt =>
+  match execListGo r env l .invalid false rt with
+  | .ok (v, ins) rt' => .ok v (if ins then popScope rt' else rt')
+  | .err e rt' => .err e rt'
+  | .crash m rt' => .crash m rt'
+  | .fuel => .fuel
+  | .unsupported w => .unsupported w
 
 def stepRec (r : Rec) : Rec :=
   { evalExpr := evalExprF r, execList := execListF r, isSetE := isSetF r }
